@@ -2,4 +2,5 @@ import ArroyProofs.AuditCmd
 import ArroyProofs.Properties.C11
 import ArroyProofs.Properties.C11Real
 import ArroyProofs.Properties.C11Reported
+import ArroyProofs.Properties.C11Reported2
 #audit Arroy.C11
